@@ -47,10 +47,55 @@ def bind(as_module="pysnark.nobackend"):
         pass
     ns = NS()
     ns.rec, ns.rt, ns.bo, ns.fx, ns.br, ns.ar, ns.pk, ns.la = recorder, rt, bo, fx, br, ar, pk, la
+    _install_taps(ns)
     ns.default_bitlength = rt.bitlength
     ns.default_resolution = fx.resolution
     _bound = ns
     return ns
+
+
+# Harness-side taps (no change to /repo): transparent wrappers that note which recorder variables
+# are (K2) the quotient allocated by LinComb.__divmod__ and (K1) the result allocated by & | ^ with a
+# plain constant. Only used to decide whether a soundness counterexample is explained by a listed finding.
+k2_quotients = []
+k2_calls = []        # (quotient lc, remainder lc, dividend lc, divisor lc) per integer divmod call
+k1_results = []
+
+
+def _install_taps(ns):
+    L = ns.rt.LinComb
+    rec = ns.rec
+    orig_divmod = L.__divmod__
+
+    def tapped_divmod(self, divisor):
+        n0 = len(rec.vals)
+        r = orig_divmod(self, divisor)
+        if r is not NotImplemented and len(rec.vals) > n0:
+            k2_quotients.append(n0)
+            dl = divisor.lc.d if isinstance(divisor, L) else {0: divisor}
+            k2_calls.append((dict(r[0].lc.d), dict(r[1].lc.d), dict(self.lc.d), dict(dl)))
+        return r
+    tapped_divmod.__wrapped__ = orig_divmod
+    L.__divmod__ = tapped_divmod
+
+    def tap_bit(name):
+        orig = getattr(L, name)
+
+        def tapped(self, other):
+            n0 = len(rec.vals)
+            r = orig(self, other)
+            if isinstance(other, int) and r is not NotImplemented and len(rec.vals) == n0 + 1 and len(rec.cons) == ncons[0]:
+                k1_results.append(n0)
+            return r
+        ncons = [0]
+
+        def outer(self, other):
+            ncons[0] = len(rec.cons)
+            return tapped(self, other)
+        outer.__wrapped__ = orig
+        setattr(L, name, outer)
+    for nm in ("__and__", "__or__", "__xor__", "__rand__", "__ror__", "__rxor__"):
+        tap_bit(nm)
 
 
 def reset(p=None, bitlength=None, resolution=None):
@@ -58,6 +103,9 @@ def reset(p=None, bitlength=None, resolution=None):
     ns = bind()
     rt = ns.rt
     ns.rec.reset(p)
+    del k2_quotients[:]
+    del k2_calls[:]
+    del k1_results[:]
     rt.guard = None
     rt._ignore_errors = False
     rt.LinComb.ONE = rt.LinComb.ONE_SAFE
